@@ -59,6 +59,8 @@ def c12(ctx):
     ctx.stage("structured", "codec", "dbg-asan", _task_args(ctx.seed, 0, 3, 3, common), timeout=1800)
     stride = 1 if thorough else 128
     ctx.stage("sweep32", "codec", "rel", _task_args(ctx.seed, 16, 3 * 4096, 16, common + ["--stride", str(stride)]), timeout=3600)
+    # encoder reuse / growth under valgrind memcheck: bytes of a grown buffer that were never written would compare as uninitialised
+    ctx.stage("structured-memcheck", "codec", "rel+memcheck", _task_args(ctx.seed + 5, 0, 3, 3, ["--mode", "roundtrip", "--pairs", str(max(2000, pairs // 30))]), timeout=3600)
     ctx.exhaustive = thorough
     ctx.rule = ("round trips decode(encode(v)) compared bit for bit (NaN -> canonical quiet NaN), encoded size == sizeof; "
                 "a case is distinct+non-trivial per distinct value bit pattern (sweeps: distinct by construction; random: by hash). "
@@ -110,6 +112,8 @@ def _seq_stage(ctx, prop, histories, extra=()):
     ctx.stage("histories", "seqmodel", "dbg-asan", args, timeout=3600)
     # the release code path (assertions compiled out) under the same sanitizers
     ctx.stage("histories-ndebug", "seqmodel", "rel-asan", worker_args(ctx.seed + 90001, max(16, histories // 3), 16, ["--prop", prop] + [x for x in extra if x != "--directed"]), timeout=3600)
+    # the same histories under valgrind memcheck (plain build): results that depend on uninitialised memory, which no compiler sanitizer here reports
+    ctx.stage("histories-memcheck", "seqmodel", "dbg+memcheck", worker_args(ctx.seed + 70001, max(32, histories // 100), 16, ["--prop", prop] + [x for x in extra if x != "--directed"]), timeout=3600)
     ctx.floors = _seq_floors()
     ctx.assumptions = list(SEQ_ASSUME)
 
@@ -203,6 +207,10 @@ def _olc_stages(ctx, prop, cases_asan, cases_rel, explore, free_cases=0):
         _lincheck_selftest(ctx)
     ctx.stage("sched-dbg-asan", "olc_conc", "dbg-asan", worker_args(ctx.seed, cases_asan, 16, extra), timeout=3600)
     ctx.stage("sched-rel", "olc_conc", "rel", worker_args(ctx.seed + 7777, cases_rel, 16, extra), timeout=3600)
+    if prop == "C04" or ctx.tier == "thorough":
+        # the release code path (which ASan's build does not compile the same way) under valgrind memcheck, addressability only:
+        # any access to freed memory. Definedness checking would be unsound here (see build.py: optimistic readers)
+        ctx.stage("sched-rel-memcheck", "olc_conc", "rel+memcheck-addr", worker_args(ctx.seed + 8888, max(64, cases_rel // 12), 16, extra), timeout=3600)
     if free_cases:
         fx = ["--prop", prop, "--mode", "free", "--rounds", "30"]
         ctx.stage("free-tsan", "olc_conc", "rel-tsan", worker_args(ctx.seed + 31, free_cases, 8, fx), timeout=3600, jobs=8)
@@ -271,6 +279,7 @@ def _qsbr_stages(ctx, prop, cases, execs, seed_off=0):
     extra = ["--prop", prop, "--execs", str(execs)]
     ctx.stage("sched-dbg-asan", "qsbr_conc", "dbg-asan", worker_args(ctx.seed + seed_off, cases, 16, extra), timeout=3600)
     ctx.stage("sched-rel", "qsbr_conc", "rel", worker_args(ctx.seed + seed_off + 4242, cases, 16, extra), timeout=3600)
+    ctx.stage("sched-rel-memcheck", "qsbr_conc", "rel+memcheck", worker_args(ctx.seed + seed_off + 5353, max(160, cases // 8), 16, extra), timeout=3600)
     ctx.assumptions = ["sequentially consistent interleavings at hook granularity; x86-TSO",
                        "shadow registration uses call/return boundaries on the permissive side: a thread counts as registered from the return of its start/resume to the "
                        "call of its pause/exit; it is discharged by a quiescent state or pause that returns after the retire, or while inside such a call / exiting / paused",
@@ -359,6 +368,13 @@ def c16(ctx):
     with ThreadPoolExecutor(max_workers=max(1, 16 // nworkers)) as ex:
         for c, rs in ex.map(run_cfg, cfgs):
             per_cfg[c] = rs
+    # two opposite corners of the matrix under valgrind memcheck: a result that depends on uninitialised memory is the classic
+    # source of configuration-dependent behaviour, and neither ASan nor UBSan reports it
+    mc_args = worker_args(ctx.seed + 99, scaled(5600 if t else 800), 8, ["--ops", "250", "--no-mt", "1"])  # single-threaded cases only: see build.py on optimistic readers
+    for c in ("cfg-sse41-nostats-assert-spin1", "cfg-avx2-stats-ndebug-spin1"):
+        if c in cfgs:
+            rs = ctx.stage("memcheck-" + c, "cfgdiff", c + "+memcheck", mc_args, timeout=3600, jobs=8)
+            ctx.counters["memcheck_cases"] = ctx.counters.get("memcheck_cases", 0) + sum(int(r.report.get("evaluations", 0)) for r in rs if r.report)
     ref = cfgs[0]
     compared = 0
     for c in cfgs:
@@ -458,6 +474,8 @@ def c13(ctx):
               timeout=7200, build_kwargs=libs)
     ctx.stage("free-tsan", "mutex_lin", "rel-tsan", [["--seed", str(ctx.seed * 100 + 50 + i), "--first", "0", "--cases", str(rounds_tsan)] for i in range(8)],
               timeout=7200, build_kwargs=libs)
+    ctx.stage("free-memcheck", "mutex_lin", "rel+memcheck", [["--seed", str(ctx.seed * 100 + 70 + i), "--first", "0", "--cases", str(scaled(4000 if t else 400))] for i in range(8)],
+              timeout=7200, build_kwargs=libs)
     if t:
         ctx.stage("free-asan", "mutex_lin", "dbg-asan", [["--seed", str(ctx.seed * 100 + 90 + i), "--first", "0", "--cases", str(scaled(150000))] for i in range(4)],
                   timeout=7200, build_kwargs=libs)
@@ -479,7 +497,7 @@ def setup_specs():
     return [
         ("codec", "dbg-asan", {}),
         ("codec", "rel", {}),
-        ("seqmodel", "dbg-asan", {}), ("seqmodel", "rel-asan", {}),
+        ("seqmodel", "dbg-asan", {}), ("seqmodel", "rel-asan", {}), ("seqmodel", "dbg", {}),
         ("olc_conc", "dbg-asan", {}),
         ("olc_conc", "rel", {}), ("olc_conc", "rel-tsan", {}), ("lincheck_test", "rel", {}),
         ("qsbr_conc", "dbg-asan", {}), ("qsbr_conc", "rel", {}),
